@@ -214,6 +214,10 @@ int _yr_compiler_store_string(
       ref);
 }
 
+#ifdef YARA_VERIF
+YR_API size_t yr_verif_arena_initial_size = 0;
+#endif
+
 YR_API int yr_compiler_create(YR_COMPILER** compiler)
 {
   int result;
@@ -266,6 +270,13 @@ YR_API int yr_compiler_create(YR_COMPILER** compiler)
   if (result == ERROR_SUCCESS)
     result = yr_hash_table_create(10000, &new_compiler->sz_table);
 
+#ifdef YARA_VERIF
+  // Verification hook: harness-settable initial arena buffer size.
+  if (result == ERROR_SUCCESS && yr_verif_arena_initial_size != 0)
+    result = yr_arena_create(
+        YR_NUM_SECTIONS, yr_verif_arena_initial_size, &new_compiler->arena);
+  else
+#endif
   if (result == ERROR_SUCCESS)
     result = yr_arena_create(YR_NUM_SECTIONS, 1048576, &new_compiler->arena);
 
